@@ -97,6 +97,10 @@ RunErrs(e) ==
      UNION {LET r == PartRange(i) IN
             FileErrs(e.files, PartFile(i), Case.destfmt, DO, SubSeq(Kept(1), r.lo, r.hi),
                      SubSeq(KeptSids(1), r.lo, r.hi), "C17.part") : i \in 1..Len(SpecRes.parts)}
+\* what a written file carries for a tree: a field the tree has no value for is written with its documented
+\* default (--), and that is what a reader of the written file gets
+Written(T) == [T EXCEPT !.nodes = {[x EXCEPT !.a.lemma = Dflt(@, Dash2), !.a.morph = Dflt(@, Dash2),
+                                             !.a.edge = Dflt(@, Dash2)] : x \in @}]
 SelfReadErrs(e) ==       \* e.src = index of source file; e.events = yields of the tool's reader on the file it wrote
   IF ~ExpectOK \/ SplitOn THEN {}
   ELSE LET Rs == Kept(e.src)
@@ -106,12 +110,12 @@ SelfReadErrs(e) ==       \* e.src = index of source file; e.events = yields of t
          /\ Len(Y) = Len(Rs)
          /\ \A k \in 1..Len(Y) : WF(Y[k].g) /\
                GotRead(Case.destfmt, Abs(Y[k].g), {}) =
-                 {Masked(Case.destfmt, x, {}, x.a) : x \in ReadTree(Case.destfmt, Rs[k], {}, "export_four" \in DO).nodes})
+                 {Masked(Case.destfmt, x, {}, x.a) : x \in ReadTree(Case.destfmt, Written(Rs[k]), {}, "export_four" \in DO).nodes})
 BackErrs(e) ==          \* A -> B -> A : the file written by the second run
   IF ~ExpectOK \/ SplitOn THEN {}
   ELSE IF e.rc # 0 THEN {"C03.roundtrip.exit0"}
   ELSE LET Rs == Kept(e.src)
-           R2 == [k \in 1..Len(Rs) |-> ReadTree(Case.destfmt, Rs[k], {}, "export_four" \in DO)]
+           R2 == [k \in 1..Len(Rs) |-> ReadTree(Case.destfmt, Written(Rs[k]), {}, "export_four" \in DO)]
            sids2 == IF Case.destfmt \in {"brackets", "discobrackets"} THEN [k \in 1..Len(Rs) |-> k] ELSE KeptSids(e.src)
        IN FileErrs(e.files, e.name, Case.srcfmt, {}, R2, sids2, "C03.roundtrip")
 
